@@ -120,9 +120,35 @@ static void memset_case(uint64_t off, bool null_start, i128 n_in, mon::Rng& rng)
   else n_legal_ok++;
 }
 
+// memset(A, pointer into ANOTHER live instance B of the same sandbox type, v, n): a sandbox-side range -- it has to lie wholly
+// inside the sandbox it starts in; a range that runs past the end of B must abort, one that fits is filled in B, nothing else
+static void memset_other_instance(uint64_t off, i128 n, mon::Rng& rng)
+{
+  if (n <= 0 || n >= (static_cast<i128>(1) << 63)) return;
+  auto p = Wd::tptr<char>(*SB2, off);
+  i128 start = static_cast<i128>(RB.base) + off;
+  bool legal = in_region(RB, start, n);
+  int value = static_cast<int>(rng.below(256));
+  mon::ctx("memset/other-instance | start=B+%llu n=%s", (unsigned long long)off, mon::i128s(n).c_str());
+  R.snapshot();
+  RB.snapshot();
+  bool ab = mon::aborts([&] { rlbox::memset(*SB, p, value, static_cast<size_t>(n)); });
+  mon::evals();
+  std::string what = mon::fmt("memset(sandbox A, tainted pointer B+%llu, n=%s): B has %llu bytes", (unsigned long long)off, mon::i128s(n).c_str(), (unsigned long long)RB.size);
+  if (!legal) {
+    if (!ab) report("memset", "illegal-request-proceeded", what + " -- the range leaves the sandbox it starts in");
+    else n_illegal_abort++;
+    return;
+  }
+  if (ab) { n_illegal_abort++; return; } // naming another instance: refusing is not judged
+  std::vector<unsigned char> exp(static_cast<size_t>(n), static_cast<unsigned char>(value));
+  if (RB.diff(off, exp.data(), exp.size()) >= 0 || R.diff_none() >= 0) report("memset", "wrong-effect", what);
+  else n_legal_ok++;
+}
+
 // ------------------------------------------------------------------- memcpy
-enum SrcKind { SRC_SBX, SRC_HEAP, SRC_OTHER_SBX, SRC_STRADDLE_IN, SRC_NULL, SRC_STACK, SRC_GLOBAL };
-static const char* srckind[] = { "tainted-same-sandbox", "app-heap", "raw-other-sandbox", "raw-straddling-region-start", "null", "app-stack", "app-global" };
+enum SrcKind { SRC_SBX, SRC_HEAP, SRC_OTHER_SBX, SRC_STRADDLE_IN, SRC_NULL, SRC_STACK, SRC_GLOBAL, SRC_OTHER_TAINTED };
+static const char* srckind[] = { "tainted-same-sandbox", "app-heap", "raw-other-sandbox", "raw-straddling-region-start", "null", "app-stack", "app-global", "tainted-other-instance" };
 // an application buffer that crosses a multiple of the sandbox size (64 KiB), 128 bytes either side: backends that answer
 // "same sandbox?" by comparing the aligned blocks of two addresses say "no" for its two ends, although both are application
 // memory
@@ -150,9 +176,11 @@ static void memcpy_case(uint64_t doff, bool dnull, SrcKind sk, uint64_t soff, i1
     case SRC_NULL: srcp = nullptr; sstart = 0; break;
     case SRC_STACK: if (nn > sizeof stackbuf && dlegal) return; for (auto& b : stackbuf) b = static_cast<unsigned char>(rng()); srcp = stackbuf; sstart = reinterpret_cast<uintptr_t>(srcp); break;
     case SRC_GLOBAL: if (nn > sizeof g_global_buf && dlegal) return; for (auto& b : g_global_buf) b = static_cast<unsigned char>(rng()); srcp = g_global_buf; sstart = reinterpret_cast<uintptr_t>(srcp); break;
+    // a tainted pointer into ANOTHER live instance of the same sandbox type: a sandbox-side range, it has to lie wholly inside that sandbox
+    case SRC_OTHER_TAINTED: srcp = RB.mem() + soff; sstart = reinterpret_cast<uintptr_t>(srcp); break;
   }
-  if (straddles_other_sandbox(sstart, n)) return;
-  bool slegal = any_range_legal(sstart, n);
+  if (sk != SRC_OTHER_TAINTED && straddles_other_sandbox(sstart, n)) return;
+  bool slegal = sk == SRC_OTHER_TAINTED ? sbx_range_legal(sstart, n) : any_range_legal(sstart, n);
   // overlapping source and destination inside the sandbox: std::memcpy is undefined there, not driven
   if (sk == SRC_SBX && dlegal && slegal && !(soff + nn <= doff || doff + nn <= soff)) return;
   bool legal = n > 0 && dlegal && slegal;
@@ -171,6 +199,7 @@ static void memcpy_case(uint64_t doff, bool dnull, SrcKind sk, uint64_t soff, i1
   }
   bool ab = mon::aborts([&] {
     if (sk == SRC_SBX) rlbox::memcpy(*SB, d, Wd::tptr<char>(*SB, soff), nn);
+    else if (sk == SRC_OTHER_TAINTED) rlbox::memcpy(*SB, d, Wd::tptr<char>(*SB2, soff), nn);
     else rlbox::memcpy(*SB, d, srcp, nn);
   });
   R.unpoison();
@@ -208,10 +237,11 @@ static void memcmp_case(uint64_t aoff, SrcKind sk, uint64_t soff, i128 n, bool t
     case SRC_OTHER_SBX: srcp = RB.mem() + soff; sstart = reinterpret_cast<uintptr_t>(srcp); break;
     case SRC_STRADDLE_IN: srcp = R.mem() + R.size - 8; sstart = reinterpret_cast<uintptr_t>(srcp); if (n <= 8) return; break; // raw pointer running past the region end
     case SRC_NULL: srcp = nullptr; sstart = 0; break;
+    case SRC_OTHER_TAINTED: srcp = RB.mem() + soff; sstart = reinterpret_cast<uintptr_t>(srcp); break; // tainted pointer into another live instance
     default: return;
   }
-  if (straddles_other_sandbox(sstart, n)) return;
-  bool slegal = any_range_legal(sstart, n);
+  if (sk != SRC_OTHER_TAINTED && straddles_other_sandbox(sstart, n)) return;
+  bool slegal = sk == SRC_OTHER_TAINTED ? sbx_range_legal(sstart, n) : any_range_legal(sstart, n);
   bool legal = n > 0 && alegal && slegal;
   mon::ctx("memcmp/%s | a=base+%llu src=%llu n=%s first=%d", srckind[sk], (unsigned long long)aoff, (unsigned long long)soff, mon::i128s(n).c_str(), tainted_first);
   for (size_t i = 0; i < 40 && aoff + i < R.size; i++) R.mem()[aoff + i] = static_cast<unsigned char>(rng.below(3));
@@ -230,6 +260,7 @@ static void memcmp_case(uint64_t aoff, SrcKind sk, uint64_t soff, i128 n, bool t
   bool ab = mon::aborts([&] {
     // the result is delivered as a tainted_int_hint: both of its unwrapping calls must give the same int
     if (sk == SRC_SBX) { auto h = rlbox::memcmp(*SB, a, Wd::tptr<char>(*SB, soff), nn); got = h.unverified_safe_because("monitor"); got_u = h.UNSAFE_unverified(); }
+    else if (sk == SRC_OTHER_TAINTED) { auto h = rlbox::memcmp(*SB, a, Wd::tptr<char>(*SB2, soff), nn); got = h.unverified_safe_because("monitor"); got_u = h.UNSAFE_unverified(); }
     else { auto h = rlbox::memcmp(*SB, a, srcp, nn); got = h.unverified_safe_because("monitor"); got_u = h.UNSAFE_unverified(); }
   });
   R.unpoison();
@@ -563,6 +594,8 @@ int main(int argc, char** argv)
         memset_case<3>(off, false, n, rng);
       }
     for (i128 n : { i128(0), i128(1), i128(8), i128(65536) }) memset_case<0>(0, true, n, rng);
+    for (uint64_t boff : { uint64_t(0), uint64_t(4096), RB.size - 64, RB.size - 16, RB.size - 1 })
+      for (i128 n : { i128(1), i128(8), i128(16), i128(17), i128(64), i128(65), i128(4096), i128(RB.size), i128(RB.size) + 1 }) memset_other_instance(boff, n, rng);
   }
   if (part < 0 || part == 1) {
     for (uint64_t doff : sandbox_starts(rng))
@@ -574,6 +607,8 @@ int main(int argc, char** argv)
         memcpy_case(doff, false, SRC_HEAP, 0, n, rng);
         memcpy_case(doff, false, SRC_OTHER_SBX, 4096, n, rng);
         memcpy_case(doff, false, SRC_OTHER_SBX, RB.size - 8, n, rng);
+        memcpy_case(doff, false, SRC_OTHER_TAINTED, 4096, n, rng);
+        memcpy_case(doff, false, SRC_OTHER_TAINTED, RB.size - 16, n, rng);
         memcpy_case(doff, false, SRC_STRADDLE_IN, 0, n, rng);
         memcpy_case(doff, false, SRC_NULL, 0, n, rng);
         memcpy_case(doff, false, SRC_STACK, 0, n, rng);
@@ -589,6 +624,8 @@ int main(int argc, char** argv)
         memcmp_case(aoff, SRC_SBX, R.size - 16, n, true, rng);
         memcmp_case(aoff, SRC_HEAP, 0, n, true, rng);
         memcmp_case(aoff, SRC_OTHER_SBX, RB.size - 8, n, true, rng);
+        memcmp_case(aoff, SRC_OTHER_TAINTED, 4096, n, true, rng);
+        memcmp_case(aoff, SRC_OTHER_TAINTED, RB.size - 16, n, true, rng);
         memcmp_case(aoff, SRC_STRADDLE_IN, 0, n, true, rng);
         memcmp_case(aoff, SRC_NULL, 0, n, true, rng);
       }
